@@ -80,7 +80,9 @@ def hot(
             nonlocal is_stopped
 
             with lock:
-                for observer in observers:
+                # A terminal notification makes an observer unsubscribe
+                # itself: iterate over a snapshot.
+                for observer in observers.copy():
                     notification.accept(observer)
 
                 if notification.kind in ("C", "E"):
